@@ -2035,7 +2035,7 @@ def make_config(rseed: int, prop: str, tier: str, faults: bool) -> dict[str, Any
     if prop == "C01" and r.random() < 0.5:
         # bias to separator-bearing strings
         strpool = r.sample([s for s in U.STR_POOL if set(":=()[]@<>") & set(s)] + ["1", "2", "3"], min(5, nstr + 1))
-    if prop == "C01" and r.random() < 0.3:
+    if (prop == "C01" and r.random() < 0.3) or (prop == "C03" and r.random() < 0.12):
         # collision kit: strings that move a separator run from one field into its neighbour
         e = r.choice(["", "", "\\", "\\\\", ")", "\\)"])  # optionally with the digest's own escape characters
         infix = "):b=<class 'str'>("
